@@ -43,7 +43,7 @@ SelfHeld(strict, prev, h) ==
   ELSE strict.c
 SelfArrival(strict, prev, h) ==
   IF strict.k = "exec" THEN h
-  ELSE IF strict.k \in {"ignore", "replay", "dup", "unknown"} THEN prev
+  ELSE IF strict.k \in {"ignore", "illformed", "replay", "dup", "unknown"} THEN prev
   ELSE IF strict.k = "hold" THEN 0
   ELSE strict.c
 
@@ -154,6 +154,7 @@ PegApply(bal, reqs, y, dustIdx, h, rates, i) ==
 \* ------------------------------------------------------------------ new entries
 ArrivalStrict(acc, e, h) ==
   IF ~e.canon \/ ~Authorized(e, h) THEN V("ignore", 0)
+  ELSE IF ~WellFormed(e) THEN V("illformed", 0)
   ELSE IF e.hash \in acc.rel THEN V("replay", 0)
   ELSE IF e.hash \in DOMAIN acc.st THEN V("dup", 0)
   ELSE IF ~InUniverse(e) THEN V("unknown", 0)
@@ -169,6 +170,16 @@ ArrivalIssues(strict, prev, prevRows, obs, obsRows, e, h) ==
   ELSE IF strict.k = "ignore" THEN
      (IF recorded THEN {Issue(IF e.auth = "Valid" /\ ~e.canon THEN "C20" ELSE "C05",
                               <<"entry that must be ignored was recorded", e.id, e.auth, h, obs>>)} ELSE {})
+  ELSE IF strict.k = "illformed" THEN    \* outputs do not add up to the input: executing it creates or destroys value
+     (IF recorded THEN {Issue("C20", <<"transaction whose outputs do not add up to its input was accepted", e.id, h, obs>>),
+                        Issue("C04", <<"transfer whose credits differ from its debit was recorded", e.id, h, obs>>)}
+                       \cup (IF OutputsExceedInput(e) THEN {Issue("C03", <<"batch paying out more than it takes from its input was recorded", e.id, h, obs>>)} ELSE {})
+      ELSE {})
+  ELSE IF strict.k = "illformed" THEN    \* outputs do not add up to the input: executing it creates or destroys value
+     (IF recorded THEN {Issue("C20", <<"transaction whose outputs do not add up to its input was accepted", e.id, h, obs>>),
+                        Issue("C04", <<"transfer whose credits differ from its debit was recorded", e.id, h, obs>>)}
+                       \cup (IF OutputsExceedInput(e) THEN {Issue("C03", <<"batch paying out more than it takes from its input was recorded", e.id, h, obs>>)} ELSE {})
+      ELSE {})
   ELSE IF strict.k = "replay" THEN
      (IF obs = prev THEN {} ELSE {Issue("C06", <<"copy of an executed entry changed its status", e.id, h, obs>>)})
   ELSE IF strict.k = "hold" THEN
